@@ -19,14 +19,15 @@ MaxAlias == EnvNat(IOEnv.C01_MAXALIAS)       \* aliases per operation
 MaxFrags == EnvNat(IOEnv.C01_MAXFRAGS)       \* inline / named fragments per operation
 Ordered == EnvNat(IOEnv.C01_ORDERED) = 1     \* canonical field order only (BFS), any order (simulate)
 
-VARIABLES gent, stack, frs, cnt, phase, asg
-gvars == <<gent, stack, frs, cnt, phase, asg>>
+VARIABLES gent, gop, stack, frs, cnt, phase, asg      \* gop: "query" | "mutation"
+gvars == <<gent, gop, stack, frs, cnt, phase, asg>>
 Ent == Catalog[gent]
 Sup == Supers[gent]
 
 \* ------------------------------------------------------------------ menus
-Composite(tn) == IsType(Sup, tn)
-FieldsOfType(tn) == IF TypeOf(Sup, tn).kind = "UNION" THEN <<>> ELSE TypeOf(Sup, tn).fields
+Composite(tn) == IsComposite(Sup, tn)
+\* the CLIENT schema: @inaccessible fields cannot be selected
+FieldsOfType(tn) == IF TypeOf(Sup, tn).kind = "UNION" THEN <<>> ELSE SelectSeq(TypeOf(Sup, tn).fields, LAMBDA f : ~f.inacc)
 \* positions: 0 = __typename, 1..n = fields, n+1.. = fragments
 Coord(tn, fn) == tn \o "." \o fn
 \* an interface field uses the menu of any implementing type that has one
@@ -39,7 +40,7 @@ AliasChoices == {""} \cup (IF cnt.alias < MaxAlias THEN {AliasPool[cnt.alias + 1
 DirChoices == {<<>>} \cup (IF cnt.dirs < MaxDirs THEN {<<Dir("skip", Var("s"))>>, <<Dir("include", Var("t"))>>} ELSE {})
 \* type conditions that may be spread inside a selection set on tn
 FragConds(tn) ==
-  {c \in Range(Names(Sup)) : c # "Query" /\ (Possible(Sup, c) \cap Possible(Sup, tn)) # {}
+  {c \in Range(Names(Sup)) : c \notin {"Query", "Mutation"} /\ Composite(c) /\ (Possible(Sup, c) \cap Possible(Sup, tn)) # {}
                               /\ (TypeOf(Sup, tn).kind # "OBJECT" \/ c = tn \/ TypeOf(Sup, c).kind # "OBJECT")}
 
 Cur == stack[Len(stack)]
@@ -48,7 +49,8 @@ Frame(ty, hdr) == [ty |-> ty, sels |-> <<>>, hdr |-> hdr, lastp |-> 0]
 FieldDepth == Cardinality({i \in DOMAIN stack : stack[i].hdr.k = "f"})
 FragDepth == Cardinality({i \in DOMAIN stack : stack[i].hdr.k \in {"i", "n"}})
 KeyFree(key) == \A i \in DOMAIN Cur.sels : Cur.sels[i].k # "f" \/ RKey(Cur.sels[i]) # key
-PosOK(p) == ~Ordered \/ p >= Cur.lastp
+\* (the order of ROOT MUTATION fields is observable, so it is never canonicalised)
+PosOK(p) == ~Ordered \/ Cur.ty = "Mutation" \/ p >= Cur.lastp
 Room == Len(Cur.sels) < MaxWidth /\ cnt.size < MaxSize
 Bump(alias, dirs, frag) ==
   [size |-> cnt.size + 1, alias |-> cnt.alias + (IF alias = "" THEN 0 ELSE 1),
@@ -57,10 +59,10 @@ Push(sel, p) == [stack EXCEPT ![Len(stack)].sels = Append(@, sel), ![Len(stack)]
 
 \* ------------------------------------------------------------------ actions
 AddTypename ==
-  /\ phase = "build" /\ Room /\ PosOK(0) /\ KeyFree("__typename") /\ Cur.ty # "Query"
+  /\ phase = "build" /\ Room /\ PosOK(0) /\ KeyFree("__typename") /\ Cur.ty \notin {"Query", "Mutation"}
   /\ stack' = Push(Field("__typename", "", <<>>, <<>>, <<>>), 0)
   /\ cnt' = Bump("", <<>>, 0)
-  /\ UNCHANGED <<gent, frs, phase, asg>>
+  /\ UNCHANGED <<gent, gop, frs, phase, asg>>
 
 AddLeaf ==
   /\ phase = "build" /\ Room
@@ -71,7 +73,7 @@ AddLeaf ==
             /\ KeyFree(IF alias = "" THEN fd.name ELSE alias)
             /\ stack' = Push(Field(fd.name, alias, args, dirs, <<>>), p)
             /\ cnt' = Bump(alias, dirs, 0)
-  /\ UNCHANGED <<gent, frs, phase, asg>>
+  /\ UNCHANGED <<gent, gop, frs, phase, asg>>
 
 \* an object field may be selected twice with the same response key (field merging)
 OpenField ==
@@ -85,15 +87,15 @@ OpenField ==
                      => (Cur.sels[i].name = fd.name /\ Cur.sels[i].args = args)
             /\ stack' = Append(stack, Frame(fd.type.n, Field(fd.name, alias, args, dirs, <<>>)))
             /\ cnt' = Bump(alias, dirs, 0)
-  /\ UNCHANGED <<gent, frs, phase, asg>>
+  /\ UNCHANGED <<gent, gop, frs, phase, asg>>
 
 OpenFrag ==
-  /\ phase = "build" /\ Room /\ cnt.frags < MaxFrags /\ FragDepth < 1 /\ Cur.ty # "Query"
+  /\ phase = "build" /\ Room /\ cnt.frags < MaxFrags /\ FragDepth < 1 /\ Cur.ty \notin {"Query", "Mutation"}
   /\ PosOK(100)
   /\ \E on \in FragConds(Cur.ty), dirs \in DirChoices, named \in BOOLEAN :
        /\ stack' = Append(stack, Frame(on, [Inline(on, dirs, <<>>) EXCEPT !.k = IF named THEN "n" ELSE "i"]))
        /\ cnt' = Bump("", dirs, 1)
-  /\ UNCHANGED <<gent, frs, phase, asg>>
+  /\ UNCHANGED <<gent, gop, frs, phase, asg>>
 
 \* ------------------------------------------------------------------ validity (conservative FieldsInSetCanMerge)
 RECURSIVE FlatScope(_, _, _)
@@ -115,14 +117,14 @@ MergeOK(fr, scope) ==
         (scope[i].f.sel # <<>> /\ \A j \in DOMAIN scope : j < i => RKey(scope[j].f) # RKey(scope[i].f)) =>
            MergeOK(fr, Flat([j \in DOMAIN scope |->
                        IF RKey(scope[j].f) = RKey(scope[i].f) THEN FlatScope(fr, FType(scope[j]).n, scope[j].f.sel) ELSE <<>>]))
-ValidSel(fr, sels) == MergeOK(fr, FlatScope(fr, "Query", sels))
+ValidSel(fr, sels) == MergeOK(fr, FlatScope(fr, IF gop = "mutation" THEN "Mutation" ELSE "Query", sels))
 
 Close ==
   /\ phase = "build" /\ Cur.sels # <<>>
   /\ IF Len(stack) = 1
      THEN /\ ValidSel(frs, Cur.sels)
           /\ phase' = "vars"
-          /\ UNCHANGED <<gent, stack, frs, cnt, asg>>
+          /\ UNCHANGED <<gent, gop, stack, frs, cnt, asg>>
      ELSE LET h == Cur.hdr
               up == SubSeq(stack, 1, Len(stack) - 1)
               fname == "F" \o ToString(Len(frs) + 1)
@@ -131,33 +133,47 @@ Close ==
               p == IF h.k = "f" THEN (CHOOSE q \in DOMAIN FieldsOfType(up[Len(up)].ty) : FieldsOfType(up[Len(up)].ty)[q].name = h.name) ELSE 100
           IN /\ stack' = [up EXCEPT ![Len(up)].sels = Append(@, sel), ![Len(up)].lastp = p]
              /\ frs' = IF h.k = "n" THEN Append(frs, Frag(fname, h.on, Cur.sels)) ELSE frs
-             /\ UNCHANGED <<gent, cnt, phase, asg>>
+             /\ UNCHANGED <<gent, gop, cnt, phase, asg>>
 
 \* ------------------------------------------------------------------ variables
+RECURSIVE VarsOfVal(_)
+VarsOfVal(v) ==                        \* variables inside a value (also nested in list / object literals)
+  CASE v.t = "v" -> <<v.v>>
+    [] v.t \in {"l", "o"} -> Flat([i \in DOMAIN v.v |-> VarsOfVal(v.v[i])])
+    [] OTHER -> <<>>
 RECURSIVE UsedIn(_)
 UsedIn(sels) ==
   Flat([i \in DOMAIN sels |->
      LET s == sels[i]
-         a == SelectSeq(s.args, LAMBDA x : x.val.t = "v")
-         d == SelectSeq(s.dirs, LAMBDA x : x.val.t = "v")
-     IN [j \in DOMAIN a |-> a[j].val.v] \o [j \in DOMAIN d |-> d[j].val.v] \o UsedIn(s.sel)])
+     IN Flat([j \in DOMAIN s.args |-> VarsOfVal(s.args[j].val)]) \o Flat([j \in DOMAIN s.dirs |-> VarsOfVal(s.dirs[j].val)])
+        \o UsedIn(s.sel)])
 UsedVars == Dedup(UsedIn(stack[1].sels) \o Flat([i \in DOMAIN frs |-> UsedIn(frs[i].sel)]))
 VarType(n) == IF n \in {"s", "t"} THEN NN(TBool) ELSE ByName(Ent.varmenu, n).type
 VarVals(n) == IF n \in {"s", "t"} THEN {Bool(TRUE), Bool(FALSE)} ELSE Range(ByName(Ent.varmenu, n).vals)
-TheDoc == Doc(stack[1].sels, frs, [i \in DOMAIN UsedVars |-> VarDef(UsedVars[i], VarType(UsedVars[i]), Absent)])
+\* a variable may also be OMITTED from the request; it then carries a default value in its definition (only variables of
+\* built-in scalar types, so that the default is a plain literal)
+DefaultOK(n) == VarType(n).n \in {"ID", "String", "Int", "Boolean"}
+DefaultOf(n) == IF n \in {"s", "t"} THEN Bool(TRUE) ELSE ByName(Ent.varmenu, n).vals[1]
+Omitted(n) == \E i \in DOMAIN asg : asg[i].name = n /\ asg[i].val = Absent
+TheVars == SelectSeq(asg, LAMBDA b : b.val # Absent)
+TheDoc == [Doc(stack[1].sels, frs, [i \in DOMAIN UsedVars |->
+                 VarDef(UsedVars[i], VarType(UsedVars[i]), IF Omitted(UsedVars[i]) THEN DefaultOf(UsedVars[i]) ELSE Absent)])
+           EXCEPT !.op = gop]
 RECURSIVE Assignments(_)
 Assignments(ns) ==
   IF ns = <<>> THEN {<<>>}
-  ELSE {<<[name |-> Head(ns), val |-> v]>> \o rest : v \in VarVals(Head(ns)), rest \in Assignments(Tail(ns))}
+  ELSE {<<[name |-> Head(ns), val |-> v]>> \o rest :
+           v \in VarVals(Head(ns)) \cup (IF DefaultOK(Head(ns)) THEN {Absent} ELSE {}), rest \in Assignments(Tail(ns))}
 Assign ==
   /\ phase = "vars"
   /\ \E a \in Assignments(UsedVars) : asg' = a
   /\ phase' = "emit"
-  /\ UNCHANGED <<gent, stack, frs, cnt>>
+  /\ UNCHANGED <<gent, gop, stack, frs, cnt>>
 
 GenInit ==
   /\ gent \in (IF E = 0 THEN DOMAIN Catalog ELSE {E})
-  /\ stack = <<Frame("Query", Root)>>
+  /\ gop \in (IF IsType(Supers[gent], "Mutation") THEN {"query", "mutation"} ELSE {"query"})
+  /\ stack = <<Frame(IF gop = "mutation" THEN "Mutation" ELSE "Query", Root)>>
   /\ frs = <<>>
   /\ cnt = [size |-> 0, alias |-> 0, dirs |-> 0, frags |-> 0]
   /\ phase = "build"
@@ -168,8 +184,8 @@ GenSpec == GenInit /\ [][GenNext]_gvars
 \* printed once per finished (operation, assignment): the case and what the monolith answers in every universe
 Emit ==
   IF phase = "emit"
-  THEN PrintT(ToJson([entry |-> Ent.name, doc |-> TheDoc, vars |-> asg,
-                      exp |-> [u \in DOMAIN Ent.universes |-> Exec(Mono(Sup, Ent.universes[u]), TheDoc, asg)]]))
+  THEN PrintT(ToJson([entry |-> Ent.name, doc |-> TheDoc, vars |-> TheVars,
+                      exp |-> [u \in DOMAIN Ent.universes |-> Exec(Mono(Sup, Ent.universes[u]), TheDoc, TheVars)]]))
   ELSE TRUE
 GenConstraint == Emit
 =============================================================================
